@@ -18,7 +18,7 @@ def main():
     # the address space of a worker is capped, so such a call raises MemoryError, which is recorded like any other error
     try:
         import resource
-        cap = int(os.environ.get("VERIF_WORKER_MEM_GB", "4")) * 1024 ** 3
+        cap = int(os.environ.get("VERIF_WORKER_MEM_GB", "8")) * 1024 ** 3
         resource.setrlimit(resource.RLIMIT_AS, (cap, cap))
     except Exception:
         pass
@@ -45,9 +45,17 @@ def main():
                 recs = [{"op": "case", "in": {}, "ok": False, "out": 0, "err": "hang"}]
             except MemoryError:
                 recs = [{"op": "case", "in": {}, "ok": False, "out": 0, "err": "MemoryError"}]
-            for r in recs:
-                r["cid"] = cid
-                g.write(json.dumps(r, separators=(",", ":")))
+            try:
+                lines = []
+                for r in recs:
+                    r["cid"] = cid
+                    lines.append(json.dumps(r, separators=(",", ":")))
+            except MemoryError:      # the records themselves do not fit (logs grown without bound): the case is reported as failed
+                recs = lines = None
+                recs = [{"op": "case", "in": {}, "ok": False, "out": 0, "err": "MemoryError", "cid": cid}]
+                lines = [json.dumps(recs[0], separators=(",", ":"))]
+            for ln in lines:
+                g.write(ln)
                 g.write("\n")
             if any(r.get("err") in ("hang", "MemoryError") for r in recs):
                 # a call ran away: what it left behind (a list of gigabytes kept by the library, a timer) must not decide the
